@@ -63,6 +63,17 @@ def gen(rng, tier):
         rhs = gen_dm.rand_formula(rng, with_group=0.2, response="").split("~", 1)[1].strip()
         cases.append({"formula": f"{resp} ~ {rhs}", "frame": fr, "na": "drop", "kind": "cat" if resp == "e" else "level",
                       "resp": resp, "rhs": rhs, "tag": "empty-level"})
+    for i in range(20 if tier != "thorough" else 150):
+        fr = gen_dm.make_frame(rng)
+        for col in fr["columns"]:
+            if col["name"] == "o":
+                # a declared category that never occurs, not in the last position
+                cats = list(col["categories"])
+                cats.insert(rng.randrange(0, len(cats)), "never")
+                col["categories"] = cats
+        rhs = gen_dm.rand_formula(rng, with_group=0.2, response="").split("~", 1)[1].strip()
+        cases.append({"formula": f"o ~ {rhs}", "frame": fr, "na": "drop", "kind": "cat", "resp": "o", "rhs": rhs,
+                      "tag": "unobserved-level"})
     for rhs in ["x + f", "0 + x", "x + (1|g)"]:
         cases.append({"formula": rhs, "frame": gen_dm.make_frame(rng), "na": "drop", "kind": "none", "resp": None, "rhs": rhs})
     return cases
